@@ -119,6 +119,41 @@ def view(tu, fn, depth=6, keep=None):
     return out
 
 
+def _stable(t):
+    """an argument expression that denotes the same value / object throughout the callee's activation"""
+    if not isinstance(t, list) or not t:
+        return True
+    k = t[0]
+    if k in ("int", "bool", "null", "char", "str", "enum", "zero", "var", "param", "this", "lambda", "fnref", "gvar",
+             "call", "mcall", "opcall", "ctor", "initlist", "sizeof", "new"):
+        return True
+    if k == "cast":
+        return _stable(t[2])
+    if k == "u":
+        # &x of a stable x, *this
+        if t[1] == "&":
+            return _stable(t[2]) or (isinstance(t[2], list) and t[2][:1] == ["member"] and _subobject(t[2]))
+        if t[1] == "*":
+            return isinstance(t[2], list) and t[2][:1] == ["this"]
+        return _stable(t[2])
+    if k == "b":
+        return all(_stable(x) for x in t[2:4])
+    if k == "member":
+        return _subobject(t) and False      # the VALUE of a member may be overwritten by the helper
+    return False
+
+
+def _subobject(t):
+    """member path without pointer chasing from a local / parameter / *this: names one fixed sub-object"""
+    while isinstance(t, list) and t[:1] == ["member"]:
+        arrow = len(t) > 3 and t[3] is True
+        base = t[2]
+        if arrow and base != ["this"]:
+            return False
+        t = base
+    return isinstance(t, list) and t[:1] in (["this"], ["var"], ["param"]) or (isinstance(t, list) and t[:2] == ["u", "*"])
+
+
 def _is_noreturn(tu, ev):
     c = tu.fns.get(ev.get("callee"))
     return bool(c is not None and (c.rec.get("noreturn") or c.rec.get("virtual_noreturn_declared") and False))
@@ -233,9 +268,29 @@ def _splice(rec, b, k, e, callee, n):
     base = max(x["id"] for x in blocks) + 1
     off = 100000 * (n + 1)
     rvar = off + 99999
-    # argument / receiver binding
+    # argument / receiver binding.  A parameter is replaced by the argument expression when that expression denotes
+    # the same thing for the whole activation (constants, the caller's locals and parameters, call results,
+    # sub-objects of those); an argument read through a pointer (`prev`, `p->q`) is evaluated ONCE at the call, as
+    # the language does, into a fresh local that stands for the parameter - the helper may overwrite that pointer.
     args = list(e.get("args") or [])
-    pmap = {i: a for i, a in enumerate(args)}
+    pmap = {}
+    binds = []
+    cparams = callee.rec.get("params") or []
+    for i, a in enumerate(args):
+        ptype = (cparams[i]["t"] if i < len(cparams) else "").rstrip()
+        if _stable(a):
+            pmap[i] = a
+        else:
+            pv = off + 90000 + i
+            pname = cparams[i]["n"] if i < len(cparams) else "arg%d" % i
+            if ptype.endswith("&"):
+                binds.append({"e": "decl", "var": pv, "name": pname, "type": ptype, "init": ["u", "&", a],
+                              "loc": e.get("loc", ""), "_inl_bind": True})
+                pmap[i] = ["u", "*", ["var", pv, pname]]
+            else:
+                binds.append({"e": "decl", "var": pv, "name": pname, "type": ptype, "init": a,
+                              "loc": e.get("loc", ""), "_inl_bind": True})
+                pmap[i] = ["var", pv, pname]
     this_tree = e.get("recv")
     call_tree = table.event_tree(e)
     ret_tree = ["var", rvar, "__ret"]
@@ -324,7 +379,7 @@ def _splice(rec, b, k, e, callee, n):
         marker["recv"] = this_tree
     if tries:
         marker["try"] = tries
-    b["ev"] = b["ev"][:k] + [marker]
+    b["ev"] = b["ev"][:k] + binds + [marker]
     b.pop("term", None)
     b["succ"] = [idmap[callee.rec["entry"]]]
     blocks.extend(new_blocks)
